@@ -204,7 +204,7 @@ func runRecord() {
 			jobs = append(jobs, job{n, lo, hi})
 		}
 	}
-	chk.Range(fmt.Sprintf("RecordPattern/InReverse: all rows of length 0..%d x all starts (0..len) x counter counts 1..10; every row also loaded with SetBulk from words whose bits beyond the row width are set (all / alternating) x counter counts 1..4", maxLen), len(jobs),
+	chk.Range(fmt.Sprintf("RecordPattern/InReverse: all rows of length 0..%d x all starts (0..len) x counter counts 1..10; starts beyond the row (len+1, len+31..33, k*2^b + r for b in {8,16,31,32,33,62}, MaxInt) x counter counts 1..3; every row also loaded with SetBulk from words whose bits beyond the row width are set (all / alternating) x counter counts 1..4", maxLen), len(jobs),
 		func(i int) string { return fmt.Sprint(jobs[i]) },
 		func(l *mc.Local, i int) {
 			j := jobs[i]
@@ -216,6 +216,14 @@ func runRecord() {
 						checkRecord(l, r, b, start, n)
 						if start < j.n {
 							checkRecordReverse(l, r, b, start, n)
+						}
+						if start == j.n && n <= 3 {
+							// starts beyond the row, including ones that look like a start inside it once cut
+							// to 8, 16, 31, 32 or 33 bits: the row has ended
+							for _, far := range farStarts(j.n) {
+								checkRecord(l, r, b, far, n)
+								l.Count("far_start_calls", 1)
+							}
 						}
 						if j.n%32 != 0 && n <= 4 {
 							checkRecord(l, d1, b, start, n, 1)
@@ -313,6 +321,7 @@ func runLengthRows(name string, seqs [][]int) {
 type varCase struct {
 	Counters, Pattern []int
 	Limit             float64
+	LimitNaN          bool `json:",omitempty"` // the allowance is NaN (not representable in JSON); Limit is 0 then
 }
 
 // model returns (score, isInf, borderline). Everything up to the final division is integer
@@ -383,7 +392,7 @@ func checkVar(l *mc.Local, c, p []int, limit float64, table string) {
 	var got float64
 	pm, site := mc.Guard(func() { got = oned.PatternMatchVariance(c, p, limit) })
 	l.Count("evaluations", 1)
-	cs := varCase{append([]int{}, c...), append([]int{}, p...), limit}
+	cs := varCase{append([]int{}, c...), append([]int{}, p...), limit, false}
 	if pm != "" {
 		chk.Violation("C20/PatternMatchVariance/panic/"+site, fmt.Sprintf("panic %s on %+v", pm, cs), cs)
 		return
@@ -502,7 +511,7 @@ func runVariance() {
 							continue
 						}
 						if !same && !inf {
-							chk.Violation("C20/PatternMatchVariance/scale", fmt.Sprintf("score(c)=%v score(%d*c)=%v for c=%v p=%v", base, k, g, c, p), varCase{ck, p, 0.7})
+							chk.Violation("C20/PatternMatchVariance/scale", fmt.Sprintf("score(c)=%v score(%d*c)=%v for c=%v p=%v", base, k, g, c, p), varCase{ck, p, 0.7, false})
 						}
 					}
 				}
@@ -529,8 +538,22 @@ func runVariance() {
 					g := oned.PatternMatchVariance(ck, p, lim)
 					l.Count("evaluations", 1)
 					if g != 0 {
-						chk.Violation("C20/PatternMatchVariance/exact-multiple", fmt.Sprintf("score(%d*p)=%v for p=%v", k, g, p), varCase{ck, p, lim})
+						chk.Violation("C20/PatternMatchVariance/exact-multiple", fmt.Sprintf("score(%d*p)=%v for p=%v", k, g, p), varCase{ck, p, lim, false})
 					}
+				}
+			}
+			// an allowance that is not a number: no deviation is "more than" NaN, and the zero score of
+			// an exact multiple is stated without condition - only that clause is demanded here
+			for k := 1; k <= 8; k++ {
+				ck := make([]int, n)
+				for x := range p {
+					ck[x] = p[x] * k
+				}
+				g := oned.PatternMatchVariance(ck, p, math.NaN())
+				l.Count("evaluations", 1)
+				l.Count("nan_allowance_calls", 1)
+				if g != 0 {
+					chk.Violation("C20/PatternMatchVariance/exact-multiple/nan-allowance", fmt.Sprintf("score(%d*p)=%v for p=%v with a NaN allowance", k, g, p), varCase{ck, p, 0, true})
 				}
 			}
 			// extreme limits and magnitudes: "no per-run limit" (+Inf, MaxFloat64, 1e19, 1e15), a zero
@@ -570,8 +593,8 @@ func runVariance() {
 				}
 			}
 		})
-	chk.Sample("variance", varCase{[]int{1, 1, 1}, []int{2, 2, 2}, 0.7})
-	chk.Sample("variance", varCase{[]int{6, 4, 2, 2}, []int{3, 2, 1, 1}, 0.7})
+	chk.Sample("variance", varCase{[]int{1, 1, 1}, []int{2, 2, 2}, 0.7, false})
+	chk.Sample("variance", varCase{[]int{6, 4, 2, 2}, []int{3, 2, 1, 1}, 0.7, false})
 }
 
 func replay() {
@@ -588,6 +611,14 @@ func replay() {
 	if _, ok := raw["Pattern"]; ok {
 		var c varCase
 		mc.LoadReplay(chk.ReplayFile(), &c)
+		if c.LimitNaN {
+			got := oned.PatternMatchVariance(c.Counters, c.Pattern, math.NaN())
+			fmt.Printf("replay %+v: library=%v with a NaN allowance\n", c, got)
+			if got != 0 {
+				chk.Violation("C20/PatternMatchVariance/exact-multiple/nan-allowance", fmt.Sprintf("score=%v for c=%v p=%v with a NaN allowance", got, c.Counters, c.Pattern), c)
+			}
+			return
+		}
 		got := oned.PatternMatchVariance(c.Counters, c.Pattern, c.Limit)
 		w, inf, b := model(c.Counters, c.Pattern, c.Limit)
 		fmt.Printf("replay %+v: library=%v model=%v inf=%v borderline=%v\n", c, got, w, inf, b)
@@ -613,4 +644,21 @@ func replay() {
 	} else {
 		checkRecord(l, r, b, c.Start, c.N, c.Dirty)
 	}
+}
+
+// farStarts lists start positions beyond a row of n pixels.
+func farStarts(n int) []int {
+	const maxInt = int(^uint(0) >> 1)
+	out := []int{n + 1, n + 31, n + 32, n + 33, n + 64, maxInt, maxInt - 31}
+	for _, b := range []uint{8, 16, 31, 32, 33, 62} {
+		for _, r := range []int{0, 1, n / 2, n - 1, n} {
+			if r < 0 {
+				continue
+			}
+			if y := 1<<b + r; y > n {
+				out = append(out, y)
+			}
+		}
+	}
+	return out
 }
